@@ -29,6 +29,7 @@ CONSTANTS Reps,         \* replica ids, e.g. {1, 2}; replica 1 creates the graph
           BootAll,      \* TRUE: every replica starts with the graph (init committed)
           MaxRank,      \* ranks (id order positions) available to new commands
           AllRanks,     \* new commands take every free rank (else only the least / greatest)
+          AllowMulti,   \* actions publishing two commands (C07)
           AllowBadMerge,\* forged merges over concurrent finalize commands (C05)
           AllowBad,     \* malformed init deliveries (C10)
           PubWeight, CommitWeight, SyncWeight,   \* simulation weights (copies of the sub-action)
@@ -128,6 +129,35 @@ ActPublish(r) ==
                                              hello |-> <<1, rk>>, stamp |-> rep[r].stamp + 1]])
   /\ UNCHANGED <<tx, npoison, nbad, noise>>
 
+(* an action publishing TWO commands (the second a plain child of the first): one new head, both
+   commands and their facts committed together (C07) *)
+ActPublish2(r) ==
+  /\ AllowMulti /\ Len(rep[r].q) = 1 /\ Len(dag) + 1 < MaxCmds + 4 /\ Cardinality(FreeRanks) >= 2
+  /\ \E k \in Kinds, o \in Ops :
+       LET top == rep[r].q[1]
+           c   == Len(dag) + 1
+           ms  == NewMerges(r, top)
+           rk  == CHOOSE x \in FreeRanks : \A y \in FreeRanks : y <= x
+           rk2 == CHOOSE x \in FreeRanks : \A y \in FreeRanks : x <= y
+           n1  == [par |-> <<top>>, kind |-> IF k = "fin" THEN "fin" ELSE "b",
+                   prio |-> IF k = "b1" THEN 1 ELSE 0, rank |-> rk, lca |-> 1, op |-> o]
+           n2  == [par |-> <<c>>, kind |-> "b", prio |-> 0, rank |-> rk2, lca |-> 1, op |-> "n"]
+           f2  == ApplyOp(ApplyOp(FactsAt(top), c, o), c + 1, "n")
+       IN /\ AcceptedAtOrigin(top, o)
+          /\ dag' = Append(Append(dag, n1), n2)
+          /\ rep' = [rep EXCEPT ![r] = [exists |-> TRUE, committed |-> rep[r].committed \cup ms \cup {c, c + 1},
+                                        heads |-> {c + 1}, stamp |-> rep[r].stamp + 1, q |-> <<>>]]
+          /\ hist' = Append(hist, [op |-> "action", r |-> r, res |-> "ok",
+                                   merges |-> [i \in 1..Cardinality(ms) |-> NodeRec(SortedById(ms)[i])],
+                                   pub |-> [n |-> c, par |-> <<top>>, kind |-> n1.kind, prio |-> n1.prio, rank |-> rk, op |-> o],
+                                   pub2 |-> [n |-> c + 1, par |-> <<c>>, kind |-> "b", prio |-> 0, rank |-> rk2, op |-> "n"],
+                                   pre |-> View(r),
+                                   view |-> [exists |-> TRUE, heads |-> <<c + 1>>,
+                                             committed |-> rep[r].committed \cup ms \cup {c, c + 1},
+                                             seq |-> f2.seq, k |-> f2.k,
+                                             hello |-> <<1, rk2>>, stamp |-> rep[r].stamp + 1]])
+  /\ UNCHANGED <<tx, npoison, nbad, noise>>
+
 (* an action whose policy fails (after publishing j commands and writing facts): no trace (C07) *)
 ActFail(r) ==
   /\ AllowFail /\ Len(rep[r].q) = 1
@@ -209,12 +239,14 @@ DeliverPoison(r, t) ==
 
 (* C10: malformed first contacts and foreign init commands.  Shapes:
      foreign_init   a parentless command with another id (with a policy)
+     foreign_nopolicy   the same without policy bytes
      nopolicy_init  the graph's own init id but without policy bytes      (missing graph only)
      parented       a first command that has a parent                      (missing graph only)
    All are refused with InitError; nothing is created or changed. *)
 DeliverBad(r, t) ==
   /\ AllowBad /\ Steps /\ Idle(r) /\ nbad < 2
-  /\ \E shape \in (IF rep[r].exists THEN {"foreign_init"} ELSE {"foreign_init", "nopolicy_init", "parented"}) :
+  /\ \E shape \in (IF rep[r].exists THEN {"foreign_init", "foreign_nopolicy"}
+                    ELSE {"foreign_init", "foreign_nopolicy", "nopolicy_init", "parented"}) :
        /\ nbad' = nbad + 1
        /\ tx' = IF rep[r].exists THEN [tx EXCEPT ![r][t] = Touch(r, t)] ELSE tx   \* heads are read first
        /\ Record([op |-> "bad", r |-> r, t |-> t, shape |-> shape, exists |-> rep[r].exists, res |-> "InitError"])
@@ -288,7 +320,7 @@ Next ==
   \E r \in Reps :
      \/ (\E w \in 1..ActWeight1 : ActBegin(r))      \* TLC's simulator picks a sub-action uniformly:
      \/ (\E w \in 1..ActWeight : ActBegin(r) /\ Cardinality(rep[r].heads) >= 2)   \* copies = weight
-     \/ ActMerge(r) \/ (\E w \in 1..PubWeight : ActPublish(r)) \/ ActFail(r)
+     \/ ActMerge(r) \/ (\E w \in 1..PubWeight : ActPublish(r)) \/ ActPublish2(r) \/ ActFail(r)
      \/ \E t \in Txns : Deliver(r, t) \/ DeliverInit(r, t) \/ DeliverPoison(r, t) \/ DeliverBad(r, t) \/ DeliverBadMerge(r, t) \/ Flush(r, t)
                         \/ (\E w \in 1..CommitWeight : Commit(r, t)) \/ CommitNoop(r, t)
      \/ \E p \in Reps, w \in 1..SyncWeight : SyncAll(r, p)
